@@ -211,13 +211,25 @@ fn check_cipher_id(cx: &Cx, x: u16) -> Vec<(String, String)> {
     if format!("{}", c) != format!("{}", x) {
         out.push(("Display".into(), format!("Display of TlsCipherSuiteID({}) is {:?}", x, format!("{}", c))));
     }
-    for (flag, h) in [("{:#x}", format!("{:#x}", c)), ("{:06x}", format!("{:06x}", c)), ("{:#06x}", format!("{:#06x}", c)), ("{:>8x}", format!("{:>8x}", c)), ("{:<8x}", format!("{:<8x}", c))] {
+    for (flag, h) in [("{:#x}", format!("{:#x}", c)), ("{:06x}", format!("{:06x}", c)), ("{:#06x}", format!("{:#06x}", c)), ("{:>8x}", format!("{:>8x}", c)), ("{:<8x}", format!("{:<8x}", c)), ("{:.1x}", format!("{:.1x}", c)), ("{:8.2x}", format!("{:8.2x}", c)), ("{:#.0x}", format!("{:#.0x}", c))] {
         let t = h.trim().trim_start_matches("0x");
         if u16::from_str_radix(t, 16).ok() != Some(x) {
             out.push((format!("LowerHex {}", flag), format!("{} of TlsCipherSuiteID({:#06x}) prints {:?}", flag, x, h)));
         }
     }
-    for (flag, d) in [("{:>8}", format!("{:>8}", c)), ("{:08}", format!("{:08}", c)), ("{:<8}", format!("{:<8}", c)), ("{:+}", format!("{:+}", c))] {
+    for (flag, d) in [
+        ("{:>8}", format!("{:>8}", c)),
+        ("{:08}", format!("{:08}", c)),
+        ("{:<8}", format!("{:<8}", c)),
+        ("{:+}", format!("{:+}", c)),
+        // a precision never shortens an integer
+        ("{:.0}", format!("{:.0}", c)),
+        ("{:.2}", format!("{:.2}", c)),
+        ("{:8.3}", format!("{:8.3}", c)),
+        ("{:<08.1}", format!("{:<08.1}", c)),
+        ("{:^12.4}", format!("{:^12.4}", c)),
+        ("{:+.1}", format!("{:+.1}", c)),
+    ] {
         if d.trim().trim_start_matches('+').parse::<u32>().ok() != Some(x as u32) {
             out.push((format!("Display {}", flag), format!("{} of TlsCipherSuiteID({}) prints {:?}", flag, x, d)));
         }
